@@ -16,7 +16,7 @@ RULE = (
     "step budget on neighbors() calls), no repeats, first element is start, set(out) == least-fixpoint "
     "reachability computed independently, generator form == list form element by element (also when the generator is consumed partly, other traversals run, and it is then resumed), with ff_result the "
     "output == the unfiltered output restricted to accepted vertices; NotImplementedError exactly when a reached "
-    "vertex carries an unknown-class link under LNK_UNKNOWN_ERROR.  Every case is evaluated a second time on the same objects after a membership swap (one member out, one non-member in; no link touched).  Non-trivial = reach set >= 3 vertices and "
+    "vertex carries an unknown-class link under LNK_UNKNOWN_ERROR.  Every case is evaluated a second time on the same objects after a membership swap (while partly consumed generators of the first phase are still suspended) (one member out, one non-member in; no link touched).  Non-trivial = reach set >= 3 vertices and "
     "(a cycle among reached vertices, or a reached vertex has a non-member neighbour, or ff_via prunes a link at a "
     "reached vertex); distinct = distinct case value."
 )
@@ -46,13 +46,29 @@ def check_case(case):
 
 
 def _check_case(case):
+    from edgegraph.traversal import breadthfirst as B
+    from edgegraph.traversal import depthfirst as D
+
     S = trav.Setup(case)
     info = _check_on(S, case)
+    # generators that stay SUSPENDED (partly consumed, never finished) while the universe changes and fresh
+    # traversals run: whatever they hold on to must not leak into later calls
+    suspended = []
+    if case.get("swap") and S.uni is not None:
+        for gen in (B.ibft, D.idft_recursive, D.idft_iterative):
+            try:
+                g = gen(S.uni, S.vs[S.start], **S.kw())
+                next(g)
+                suspended.append(g)
+            except (StopIteration, NotImplementedError):
+                pass
     if S.apply_swap():
         # the same objects after a membership swap (no link touched): everything must hold again
         info2 = _check_on(S, case)
         info["classes"] = sorted(set(info["classes"]) | {"after-membership-swap"})
         info["nt"] = info["nt"] or info2["nt"]
+    for g in suspended:
+        g.close()
     if case.get("take", 0) in (1, 3) and case.get("pad", 0) < 100:
         # ... and on a copy (deepcopy / pickle / nrpickler) of the world that has just been traversed
         S.replace_by_copy(case["take"] + len(S.vs))
